@@ -146,6 +146,10 @@ func (c *cacheRig) run(r Run) procResult {
 		p.Sync, p.PassUntil, killAt = true, j, j
 	}
 	var fsize int64 = -1
+	if kind == "fsizeq" {
+		// the same fault with a disassembler that does not notice errors of its own writes
+		kind, p.Quiet = "fsize", true
+	}
 	if kind == "fsize" {
 		total := int64(65 + len(c.listings[r.Variant]))
 		fsize = total * int64(j) / 12
@@ -190,6 +194,9 @@ func genHistory(r *rand.Rand) History {
 	faulty := func() string {
 		switch r.Intn(9) {
 		case 7, 8:
+			if r.Intn(2) == 0 {
+				return fmt.Sprintf("fsizeq:%d", r.Intn(13))
+			}
 			return fmt.Sprintf("fsize:%d", r.Intn(13))
 		case 0:
 			return "missing"
@@ -246,6 +253,7 @@ func runCache(e *env, replayCases []string) error {
 		}
 		for _, q := range []int{0, 1, 4, 8, 11, 12} {
 			hs = append(hs, History{Runs: []Run{{Variant: 0, Sched: fmt.Sprintf("fsize:%d", q)}, {Variant: 0, Sched: "ok"}}})
+			hs = append(hs, History{Runs: []Run{{Variant: 0, Sched: fmt.Sprintf("fsizeq:%d", q)}, {Variant: 0, Sched: "ok"}}})
 			hs = append(hs, History{Runs: []Run{{Variant: smallVariant, Sched: fmt.Sprintf("fsize:%d", q)}, {Variant: smallVariant, Sched: "ok"}}})
 		}
 		for _, j := range []int{0, 3, 6} {
@@ -267,7 +275,7 @@ func runCache(e *env, replayCases []string) error {
 		nontrivial := false
 		for _, r := range h.Runs {
 			// for the specification a tool that dies from a signal is a tool that failed after the same prefix
-			req += fmt.Sprintf(" %d %s", r.Variant, strings.Replace(r.Sched, "sigfail:", "fail:", 1))
+			req += fmt.Sprintf(" %d %s", r.Variant, strings.Replace(strings.Replace(r.Sched, "sigfail:", "fail:", 1), "fsizeq:", "fsize:", 1))
 			kind, _ := parseSched(r.Sched)
 			e.tag("sched:" + kind)
 			if r.Sched != "ok" {
